@@ -166,6 +166,10 @@ func ItemCollectionDeduplication(recCols ...*ItemCollection) ItemCollection {
 			} else {
 				continue
 			}
+			if len(testIt) == 0 {
+				// an entry without an id names nobody: it is kept and is neither a recipient nor a duplicate
+				continue
+			}
 			for _, it := range rec {
 				if testIt.Equals(it.GetID(), false) {
 					// mark the element for removal
